@@ -134,4 +134,49 @@ def bindBest (keys : List Str) (cands : List Cand) : Except Err ClassId :=
   | some (c, _) => .ok c
   | none => .error (.parser "Failed to bind object")
 
+
+/-! ### which configuration the candidates and the caller see -/
+
+/-- `replace(self.config, fail_on_converter_warnings=True)` : a *copy* of the caller's
+configuration, strict about conversions, handed to a new decoder for the candidates -/
+def candidateConfig (cfg : ParserConfig) : ParserConfig := { cfg with failOnConverterWarnings := true }
+
+/-- a candidate whose attempt depends on the configuration it is tried under -/
+structure CandC where
+  id : ClassId
+  localNames : List Str
+  attempt : ParserConfig → Option Nat
+
+def CandC.under (c : CandC) (cfg : ParserConfig) : Cand := ⟨c.id, c.localNames, c.attempt cfg⟩
+
+/-- what the decoder does, item by item, while it walks documents -/
+inductive Work
+  | convert (fails : Bool)                        -- `parse_var` on a scalar; `fails` = ConverterError
+  | best (keys : List Str) (cands : List CandC)   -- `bind_best_dataclass` on a nested object
+
+inductive Done
+  | kept | warned | chose (c : ClassId)
+deriving Repr, DecidableEq
+
+/-- one item with the decoder's own configuration as explicit state:
+(outcome, the decoder's configuration afterwards) -/
+def workStep (cfg : ParserConfig) : Work → Except Err Done × ParserConfig
+  | .convert fails =>
+    (if fails then
+       (if cfg.failOnConverterWarnings then .error (.parser "Failed to convert value") else .ok .warned)
+     else .ok .kept, cfg)
+  | .best keys cands =>
+    (match bindBest keys (cands.map (·.under (candidateConfig cfg))) with
+     | .ok c => .ok (.chose c)
+     | .error err => .error err, cfg)
+
+/-- a decoder (one `ParserConfig` object) working through the items of one or several
+documents; a failed item ends its document, the decoder is used again for the next one -/
+def workAll (cfg : ParserConfig) : List Work → List (Except Err Done) × ParserConfig
+  | [] => ([], cfg)
+  | w :: ws =>
+    let r := workStep cfg w
+    let rs := workAll r.2 ws
+    (r.1 :: rs.1, rs.2)
+
 end Xs.DictDec
